@@ -5,6 +5,7 @@ package main
 
 import (
 	"bytes"
+	"encoding/binary"
 	"fmt"
 	edverifier "github.com/storacha/go-ucanto/principal/ed25519/verifier"
 	"io"
@@ -46,7 +47,7 @@ var respKinds = []string{
 	"empty-batch", "empty-report", "foreign-report", "normal", "bare-ran", "missing-receipt-block", "missing-invocation-block",
 	"receipt-not-a-receipt", "receipt-empty-out", "receipt-no-issuer", "receipt-bad-issuer", "receipt-empty-sig", "receipt-fx", "report-nil-value",
 	"root-not-message", "no-roots", "two-roots", "garbage", "empty-body", "truncated", "flipped",
-	"receipt-bad-issuer", "receipt-bad-issuer", "text-error", "text-error", "text-error", "receipt-short-sig", "receipt-short-sig",
+	"receipt-bad-issuer", "receipt-bad-issuer", "text-error", "text-error", "text-error", "receipt-short-sig", "receipt-short-sig", "huge-section", "huge-section",
 }
 
 func genC15(cfg Config, emit Emit) error {
@@ -227,6 +228,12 @@ func respBody(kind string, r *rand.Rand) ([]byte, []ipld.Link) {
 		rr := rawReceipt(&s, sigs[r.Intn(len(sigs))], inv.Link())
 		rt := encodeMsgRoot([]ipld.Link{}, reportFor(inv.Link(), rr.Link()))
 		return carOf([]ipld.Link{rt.Link()}, []ipld.Block{rr, rt, inv.Root()}), lookups
+	case "huge-section":
+		// a well-formed response followed by a section that announces an absurd length
+		rt := encodeMsgRoot([]ipld.Link{}, nil)
+		good := carOf([]ipld.Link{rt.Link()}, []ipld.Block{rt})
+		l := []uint64{1 << 62, 1<<62 + 1, 1<<63 - 1, 1 << 63, 1<<64 - 1, 1 << 40, 32<<20 + 1}[r.Intn(7)]
+		return append(append(good, binary.AppendUvarint(nil, l)...), 0x01, 0x71), lookups
 	case "receipt-empty-sig":
 		s := svc.DID().String()
 		rr := rawReceipt(&s, []byte{}, dummyLink(6))
